@@ -88,6 +88,10 @@ def check(run):
     run.clause('no raw pointer to a destroyed timer stays in the simulation: a queued timer is dequeued by cancel() on every path (shared with C03/C12; a dangling queue entry makes the run depend on what the allocator put there)')
     import p03
     p03.cancel_dequeues_rule(run)
+    run.clause('R13f the capture file contains no bytes from beyond a buffer: every stream write of <buffer>.data() has length <buffer>.size() (shared with C19)')
+    nwr = engines.stream_writes_within_buffer(run, [f for f in fx.repo_functions() if f.file.endswith('pcap.cpp')])
+    if nwr < 2:
+        run.broke('fewer than 2 payload writes found in pcap.cpp (%d)' % nwr)
     r13b(run, OUTPUT_ONLY)
     r13c(run, OUTPUT_ONLY)
     r13d(run, simlib.REPO_PREFIX)
